@@ -252,6 +252,9 @@ MIXED_CASE = [
     "SELECT m.*, x.a FROM mixed AS m JOIN x ON x.a = m.foo",
     "SELECT T.Col AS Alias1, t.col AS alias1 FROM Tbl AS T WHERE T.COL = 1 ORDER BY Alias1",
     "WITH Cte AS (SELECT a AS MixedCol FROM x) SELECT MixedCol, CTE.mixedcol FROM Cte",
+    # a star that cannot be expanded (no schema for src) under a consumer that names columns differing only in letter case
+    'SELECT t."Id", t."id", t."ID" FROM (SELECT * FROM src LIMIT 5) AS t',
+    'WITH c AS (SELECT * FROM src) SELECT a."Val", b."val", a."VAL" FROM c AS a JOIN c AS b ON a."Key" = b."key"',
 ]
 
 # derived tables / CTEs whose inner aliases conflict with aliases of the query they are merged into - in one, two or three names,
